@@ -52,6 +52,8 @@ TRUSTED = [
     "connection cleanliness is a ghost flag of the model: the client operations are classified by what they did to the "
     "session flags (_closed/_drained); that an operation of a class leaves the real connection as the model says is checked "
     "differentially (measured at every return), not proved",
+    "the model performs the lock-protected computation between two observable events of a thread in the step of the first "
+    "one (justified by C32_mutex and the extracted fact that every access to _idle is under the lock)",
 ]
 PARTIAL = [
     "process death is visible to the pool only through proc.poll(): a worker that dies after its health check is handed out "
@@ -64,8 +66,9 @@ RULE = (
     "configurations = (max_idle 0..2, idle_timeout, 1-2 command keys, 2-3 threads of jobs: borrow(key, client script, on_log "
     "raising at position k / from position k, leave normally or by exception) | advance clock | close | reap | idle_count | "
     "kill worker); client scripts mix unary calls and producer/exchange/header streams that are finished, closed, cancelled, "
-    "abandoned, overlapped or ended by a client-side error; hand-written corpus + callbacks raising at EVERY read position of "
-    "every script shape + random configurations; per configuration every schedule with <= 2 (quick) / 3 (thorough) preemptions "
+    "abandoned, overlapped (by another stream or a unary call) or ended by a client-side error; hand-written corpus + callbacks "
+    "raising (an Exception, swallowed or propagated, or KeyboardInterrupt) at EVERY read position of every script shape + random "
+    "configurations; per configuration every schedule with <= 2 (quick) / 3 (thorough) preemptions "
     "(capped), then PCT / random-walk schedules, some with line-level preemption of the pool methods. Non-trivial = at least "
     "two borrows were served; distinct by (configuration, schedule)"
 )
@@ -73,9 +76,10 @@ MANIFEST = {
     "level": "proof",
     "text": "Kernel-checked invariants of a fine-grained transition system of the pool (every lock operation, unlocked flag "
             "access, poll, close and client operation is a step; any number of threads): no worker has two holders, an idle "
-            "worker has none, the idle dict never exceeds max_idle (0 included), a worker is handed over only after a poll "
-            "that found it alive and with a connection whose model state is 'at a message boundary', and after close() the "
-            "idle dict stays empty. The model is tied to the code by extraction of the comparison operators, branch shapes "
+            "worker has none, the idle dict never exceeds max_idle (0 included), a worker is handed over only after a poll by "
+            "the borrowing thread that found it alive (or its own spawn) and with a connection whose model state is 'at a "
+            "message boundary' — for every sequence of client operations, the abandoned-stream rule fires whenever it is not "
+            "— and after close() the idle dict stays empty. The model is tied to the code by extraction of the comparison operators, branch shapes "
             "and the abandoned-stream rule, and by trace inclusion of deterministic-scheduler runs of the real WorkerPool "
             "over real client/server connections.",
     "note": "Assumes threading.Lock mutual exclusion; cleanliness of a connection after each class of client operation is "
@@ -811,7 +815,7 @@ def run(ctx: Any) -> None:
     thorough = ctx.tier == "thorough"
     check_meta(ctx, PM)
     bound = 3 if thorough else 2
-    per = ctx.budget(42, 600)
+    per = ctx.budget(42, 400)
     cfgs: list[tuple[dict[str, Any], int, int, int]] = []
     for c in CORPUS:
         cfgs.append((dict(c, src=c.get("src", "corpus")), per, bound, per // 6))
@@ -822,7 +826,7 @@ def run(ctx: Any) -> None:
         fam = fam[:: max(1, len(fam) // ctx.budget(48, 10**6))]
     for c in fam:
         cfgs.append((c, ctx.budget(3, 30), bound, ctx.budget(1, 10)))
-    for i in range(ctx.budget(12, 140)):
+    for i in range(ctx.budget(12, 100)):
         c = gen_cfg(rng)
         if i % 4 == 3:
             c["lines"] = True
